@@ -87,6 +87,30 @@ add("C13",
     "exercised (mpi4py absent). Clause (b) is a test, labelled as such in the evidence. Axiom-free.",
     "Rocq/Coq proof over all crash prefixes + fault-injection correspondence; differential test for the dill clause")
 
+add("C19",
+    "Coq theorems over an executable model of Evaluation (_serial_eval, _multiprocess_eval with _fitness_job on pickled copies and "
+    "the counter-delta protocol), of the eval_count delegation through LocalOptFitnessFunction, and of the per-island counters of "
+    "an archipelago, generic in the genome type, the fitness function and an arbitrary local-optimisation oracle: every due "
+    "individual ends up flagged with the fitness of its current genome, others are untouched, slot order/identity preserved "
+    "(copies in the multi-process case), and the reported count grows by exactly the number of real invocations, in the parent "
+    "or inside the workers. Tied to the code by running real Evaluation objects (real LocalOptFitnessFunction, worker pools) on "
+    "generated flag patterns and comparing inside Coq, with a cross-process independent invocation counter.",
+    "Trusted: Coq kernel; pickling = independent copy; Pool results consumed in submission order; the harness. Island / archipelago "
+    "evolution histories (scipy local optimisation, 2 workers, RandomSubsetEvaluation) are checked against the independent counter "
+    "after every evolve - that part is a test, the theorem covers one phase and the summation. Axiom-free.",
+    "Rocq/Coq proof (generic model, any optimizer oracle) + differential correspondence with an independent counter")
+
+add("C17",
+    "PARTIAL. (a) Coq theorem: for every population, flag pattern, optimizer oracle and completion order, multi-process "
+    "evaluation leaves the same genome, fitness and flag in every slot and reports the same count as serial evaluation; tied to "
+    "Evaluation._multiprocess_eval by running both on the same populations with scrambled worker completion order. (b) The only "
+    "hash-seed dependent construct found in the fit path (iteration over a set of operator names) is modelled; after fix F8 the "
+    "registration is sorted and proved independent of the enumeration order. That nothing else varies between interpreter "
+    "processes is NOT a theorem: fits are repeated in fresh processes under 6 PYTHONHASHSEEDs and compared (test).",
+    "Trusted: Coq kernel; pickling = copy; the harness. Clause (b) beyond the operator table is a subprocess test. Under local "
+    "optimisation fitness values depend on random starting points, so reproducibility is for a fixed random_state only. Axiom-free.",
+    "Rocq/Coq proof for clause (a) and the operator-table clause; subprocess differential test for the rest of (b)")
+
 NOT_APPLICABLE = []
 def main():
     props = [json.loads(l)["id"] for l in open(os.path.join(HERE, "properties.jsonl"))]
